@@ -139,6 +139,18 @@ CLAIMED = {
          "executor by C07); FIL printer/reader and harness. The certificate computation is untrusted. The checker is sufficient, not "
          "complete. Known finding C14/alias-width/* (one name at two widths).",
     technique="Lean-verified translation-validation checker run on the real DCE outputs + differential execution"),
+ "C11": dict(
+    category="proof",
+    text="33 Lean theorems for all finite graphs, roots and edit histories: the container mirror never panics, keeps the four views "
+         "consistent and refines the abstract (V,E) graph; reachability, dominators, immediate dominators (existence and uniqueness), "
+         "dominator tree, frontiers, back edges, natural loops, nesting, reducibility, acyclicity and transitive predecessors are the "
+         "path-defined textbook objects (definitional models on one verified reach); pre-order, post-order, topological order and "
+         "compute_acyclic are certified by sound checkers run on falcon's actual outputs. The correspondence runs the real falcon "
+         "against the models on tens of thousands of graphs per run (thorough: exhaustive on <= 4 vertices).",
+    design_ref="DESIGN.md §6 C11",
+    note="Algorithms are definitional models (not a proof of Semi-NCA); order outputs are validated, not derived; a root that is not a "
+         "vertex is outside the property; vertex and edge payloads are not modelled.",
+    technique="Lean 4 proofs: mirror + refinement (container), definitional models on a verified reach, verified checkers; three-way correspondence"),
 }
 
 checks = []
